@@ -389,3 +389,31 @@ mut("c16-keep-kind-switch", "C16", "KEEP", "gohcl/encode.go",
 mut("c16-keep-len-zero-first", "C16", "KEEP", "gohcl/decode.go",
     "if len(blocks) > 1 && !isSlice {", "if !isSlice && len(blocks) >= 2 {", "")
 mut("rename-decodeBodyToStruct", "C16", "RENAME", "gohcl", "decodeBodyToStruct", "decodeBodyIntoStruct")
+
+# ---- rules of round 7 (DESIGN §9.21) ------------------------------------------------------------------
+mut("c01-for-filter-true-skips", "C01", "MUST", "hclsyntax/expression.go",
+    "\t\t\t\tif includeUnmarked.False() {\n\t\t\t\t\t// Skip this element\n\t\t\t\t\tcontinue\n\t\t\t\t}\n\t\t\t}\n\n\t\t\tkeyRaw, keyDiags := e.KeyExpr.Value(childCtx)",
+    "\t\t\t\tif includeUnmarked.False() {\n\t\t\t\t\t// Skip this element\n\t\t\t\t\tknown = known && true\n\t\t\t\t}\n\t\t\t}\n\n\t\t\tkeyRaw, keyDiags := e.KeyExpr.Value(childCtx)", "for.filter")
+mut("c01-keep-for-filter-true-form", "C01", "KEEP", "hclsyntax/expression.go",
+    "\t\t\t\tif includeUnmarked.False() {\n\t\t\t\t\t// Skip this element\n\t\t\t\t\tcontinue\n\t\t\t\t}\n\t\t\t}\n\n\t\t\tkeyRaw, keyDiags := e.KeyExpr.Value(childCtx)",
+    "\t\t\t\tif skip := includeUnmarked.False(); skip {\n\t\t\t\t\tcontinue\n\t\t\t\t}\n\t\t\t}\n\n\t\t\tkeyRaw, keyDiags := e.KeyExpr.Value(childCtx)", "")
+mut("c01-op-result-own", "C01", "MUST", "hclsyntax/expression_ops.go",
+    "\treturn result.WithMarks(lhsMarks, rhsMarks), diags\n}\n\nfunc (e *BinaryOpExpr) Range()",
+    "\tif e.Op == OpEqual && lhsVal.RawEquals(rhsVal) {\n\t\treturn cty.True.WithMarks(lhsMarks, rhsMarks), diags\n\t}\n\treturn result.WithMarks(lhsMarks, rhsMarks), diags\n}\n\nfunc (e *BinaryOpExpr) Range()", "op.impl")
+mut("c01-keep-op-result-local", "C01", "KEEP", "hclsyntax/expression_ops.go",
+    "\treturn result.WithMarks(lhsMarks, rhsMarks), diags\n}\n\nfunc (e *BinaryOpExpr) Range()",
+    "\tmarked := result.WithMarks(lhsMarks, rhsMarks)\n\tret := marked\n\treturn ret, diags\n}\n\nfunc (e *BinaryOpExpr) Range()", "")
+mut("c17-splat-shared-child", "C17", "MUST", "hclsyntax/expression.go",
+    "\t\tchiCtx := ctx.NewChild()\n", "\t\tchiCtx := ctx.NewChild().Parent()\n", "ctx.fresh")
+mut("c17-keep-splat-child-var", "C17", "KEEP", "hclsyntax/expression.go",
+    "\t\tchiCtx := ctx.NewChild()\n", "\t\tvar chiCtx *hcl.EvalContext\n\t\tchiCtx = ctx.NewChild()\n", "")
+mut("c20-json-traversal-prefilter", "C20", "MUST", "json/structure.go",
+    "\t\ttraversal, diags := hclsyntax.ParseTraversalAbs([]byte(v.Value), v.SrcRange.Filename, v.SrcRange.Start)\n\t\tif diags.HasErrors() {\n\t\t\treturn nil\n\t\t}\n\t\treturn traversal",
+    "\t\tif len(v.Value) > 0 && v.Value[0] == '\"' {\n\t\t\treturn nil\n\t\t}\n\t\ttraversal, diags := hclsyntax.ParseTraversalAbs([]byte(v.Value), v.SrcRange.Filename, v.SrcRange.Start)\n\t\tif diags.HasErrors() {\n\t\t\treturn nil\n\t\t}\n\t\treturn traversal", "json.traversal")
+mut("c18-schema-own", "C18", "MUST", "ext/dynblock/expand_body.go",
+    "rawContent, _, diags := b.original.PartialContent(extSchema)", "_ = extSchema\n\trawContent, _, diags := b.original.PartialContent(schema)", "schema.extended")
+mut("c06-unknown-body-unmarked", "C06", "MUST", "hcldec/spec.go",
+    "return prepareBodyVal(cty.UnknownVal(s.impliedType().WithoutOptionalAttributesDeep()), childBlock.Body), diags\n\t\t}\n\t}\n\tval, _, childDiags",
+    "return cty.UnknownVal(s.impliedType().WithoutOptionalAttributesDeep()), diags\n\t\t}\n\t}\n\tval, _, childDiags", "bodymarks.unknown")
+mut("c04-native-justattrs-ignores-hidden-blocks", "C04", "MUST", "hclsyntax/structure.go",
+    "\t\tif _, hidden := b.hiddenBlocks[example.Type]; hidden {\n\t\t\t// already consumed by an earlier PartialContent call\n\t\t\tcontinue\n\t\t}\n", "", "hidden.honoured")
